@@ -83,20 +83,36 @@ static CO_ERR COTPdoEventWrite(struct CO_OBJ_T *obj, struct CO_NODE_T *node, voi
     /* identify the corresponding TPDO */
     num  = CO_GET_IDX(obj->Key);
     num &= 0x1FF;
+    if (num >= CO_TPDO_N) {
+        return (CO_ERR_NONE);                  /* no TPDO for this object  */
+    }
     pdo  = &node->TPdo[num];
 
     /* clear already running timer (event and inhibit) */
     tmr = &pdo->Node->Tmr;
     if (pdo->EvTmr >= 0) {
         tid = COTmrDelete(tmr, pdo->EvTmr);
+        pdo->EvTmr = -1;
         if (tid < 0) {
             return (CO_ERR_TYPE_WR);
         }
     }
     if (pdo->InTmr >= 0) {
         tid = COTmrDelete(tmr, pdo->InTmr);
+        pdo->InTmr = -1;
         if (tid < 0) {
             return (CO_ERR_TYPE_WR);
+        }
+        /* a running inhibit time must stay supervised: restart it */
+        if ((pdo->Flags & CO_TPDO_FLG__I_) != 0) {
+            pdo->InTmr = COTmrCreate(tmr,
+                                     pdo->Inhibit,
+                                     0,
+                                     COTPdoTmrInhibit,
+                                     (void*)pdo);
+            if (pdo->InTmr < 0) {
+                pdo->Flags &= ~CO_TPDO_FLG__I_;
+            }
         }
     }
 
